@@ -140,6 +140,10 @@ type St12 struct {
 	At        bool   `json:"@x"`
 	Plain     int    `json:"plain"`
 	Under     int    `json:"_"`
+	UserID    int    `json:"user_id"`
+	DiskSize  string `json:"disk-size"`
+	Task2     bool   `json:"task2"`
+	Ks        int    `json:"Ks"`
 }
 
 // omitempty on every kind, arrays included ([2]int{0,0} is not empty, [0]int is)
